@@ -3,12 +3,12 @@ package flight12
 //symgo:pkg github.com/pion/dtls/v3/internal/flight/flight12
 //symgo:param HSVARY quick=1 thorough=2
 //symgo:param HSAUTH quick=3 thorough=3
-//symgo:param HSSUITE quick=3 thorough=4
+//symgo:param HSSUITE quick=3 thorough=5
 //symgo:param HSEMS quick=2 thorough=3
 //symgo:param HSSRTP quick=2 thorough=3
 //symgo:param HSALPN quick=2 thorough=3
 //symgo:param HSCID quick=2 thorough=3
-//symgo:param HSHVR quick=1 thorough=2
+//symgo:param HSHVR quick=2 thorough=2
 //symgo:replace github.com/pion/dtls/v3/pkg/crypto/elliptic.GenerateKeypair zzHsGenerateKeypair
 //symgo:replace github.com/pion/dtls/v3/pkg/crypto/prf.PreMasterSecret zzHsPreMasterSecret
 //symgo:replace github.com/pion/dtls/v3/pkg/crypto/prf.PHash zzHsPHash
@@ -49,6 +49,7 @@ import (
 	"github.com/pion/dtls/v3/pkg/crypto/prf"
 	"github.com/pion/dtls/v3/pkg/crypto/signature"
 	"github.com/pion/dtls/v3/pkg/crypto/signaturehash"
+	"github.com/pion/dtls/v3/pkg/protocol"
 	"github.com/pion/dtls/v3/pkg/protocol/extension"
 	"github.com/pion/dtls/v3/pkg/protocol/handshake"
 )
@@ -291,6 +292,7 @@ func zzHsSuites(auth int, pick int) []dtlsconfig.CipherSuite {
 			{ciphersuite.TLS_ECDHE_ECDSA_WITH_AES_256_GCM_SHA384, ciphersuite.TLS_ECDHE_ECDSA_WITH_AES_128_GCM_SHA256},
 			{ciphersuite.TLS_ECDHE_ECDSA_WITH_AES_128_CCM, ciphersuite.TLS_ECDHE_ECDSA_WITH_AES_256_GCM_SHA384},
 			{ciphersuite.TLS_ECDHE_ECDSA_WITH_AES_256_CBC_SHA},
+			{ciphersuite.TLS_AES_128_GCM_SHA256, ciphersuite.TLS_ECDHE_ECDSA_WITH_AES_128_GCM_SHA256}, // a DTLS 1.3-only suite first
 		}
 	case 1:
 		menu = [][]ciphersuite.ID{
@@ -298,6 +300,7 @@ func zzHsSuites(auth int, pick int) []dtlsconfig.CipherSuite {
 			{ciphersuite.TLS_PSK_WITH_CHACHA20_POLY1305_SHA256, ciphersuite.TLS_PSK_WITH_AES_128_GCM_SHA256},
 			{ciphersuite.TLS_PSK_WITH_AES_128_CCM_8, ciphersuite.TLS_PSK_WITH_CHACHA20_POLY1305_SHA256},
 			{ciphersuite.TLS_PSK_WITH_AES_128_CBC_SHA256},
+			{ciphersuite.TLS_AES_128_GCM_SHA256, ciphersuite.TLS_PSK_WITH_AES_128_GCM_SHA256},
 		}
 	default:
 		menu = [][]ciphersuite.ID{
@@ -305,6 +308,7 @@ func zzHsSuites(auth int, pick int) []dtlsconfig.CipherSuite {
 			{ciphersuite.TLS_ECDHE_PSK_WITH_AES_128_CBC_SHA256, ciphersuite.TLS_PSK_WITH_AES_128_GCM_SHA256},
 			{ciphersuite.TLS_PSK_WITH_AES_128_GCM_SHA256, ciphersuite.TLS_ECDHE_PSK_WITH_AES_128_CBC_SHA256},
 			{ciphersuite.TLS_PSK_WITH_AES_128_CCM},
+			{ciphersuite.TLS_AES_128_GCM_SHA256, ciphersuite.TLS_ECDHE_PSK_WITH_AES_128_CBC_SHA256},
 		}
 	}
 	out := []dtlsconfig.CipherSuite{}
@@ -361,14 +365,14 @@ func zzHsStringIn(list []string, p string) bool {
 	return in
 }
 
-// zzHsCIDGen: 0 no generator, 1 generator of empty CIDs, 2 generator of 2 symbolic bytes.
+// zzHsCIDGen: 0 no generator, 1 generator of 2 symbolic bytes, 2 generator of empty CIDs.
 func zzHsCIDGen(name string, mode int) func() []byte {
 	switch mode {
 	case 1:
-		return func() []byte { return []byte{} }
-	case 2:
 		cid := zzsymBytes(name, 2)
 		return func() []byte { return zzHsClone(cid) }
+	case 2:
+		return func() []byte { return []byte{} }
 	}
 	return nil
 }
@@ -384,6 +388,7 @@ type zzHsWorld struct {
 	clientALPN, serverALPN   []string
 	clientCIDMode, serverCIDMode int
 	hvr                      bool
+	abort                    string // which step ended the handshake: "", "server_hello", "server_flight4", "client_flight3"
 	clientAuth               dtlsconfig.ClientAuthType
 }
 
@@ -433,11 +438,16 @@ const (
 
 // zzHsConfigure builds both configurations from zzsymChoice / symbolic values within the tier bounds.
 func zzHsConfigure() *zzHsWorld {
-	w := &zzHsWorld{}
 	zzHsPickFocus()
+	return zzHsConfigureFocused(zzsymParam("HSSUITE"))
+}
+
+// zzHsConfigureFocused builds the configurations for the focus already stored in zzHsFocus / zzHsFocus2.
+func zzHsConfigureFocused(nSuiteMenus int) *zzHsWorld {
+	w := &zzHsWorld{}
 	w.auth = zzHsDim("auth_mode", zzDimAuth, zzsymParam("HSAUTH"), 0)
-	cs := zzHsSuites(w.auth, zzHsDim("client_suites", zzDimSuite, zzsymParam("HSSUITE"), 1))
-	ss := zzHsSuites(w.auth, zzHsDim("server_suites", zzDimSuite, zzsymParam("HSSUITE"), 2))
+	cs := zzHsSuites(w.auth, zzHsDim("client_suites", zzDimSuite, nSuiteMenus, 1))
+	ss := zzHsSuites(w.auth, zzHsDim("server_suites", zzDimSuite, nSuiteMenus, 2))
 	nems := zzsymParam("HSEMS")
 	w.clientProfiles = zzHsProfiles("client_srtp_profile", zzHsDim("client_nsrtp", zzDimSRTP, zzsymParam("HSSRTP"), 1))
 	w.serverProfiles = zzHsProfiles("server_srtp_profile", zzHsDim("server_nsrtp", zzDimSRTP, zzsymParam("HSSRTP"), 1))
@@ -455,7 +465,7 @@ func zzHsConfigure() *zzHsWorld {
 		LocalSignatureSchemes:        zzHsEd25519(),
 		ExtendedMasterSecret:         zzHsEMS(zzHsDim("client_ems", zzDimEMS, nems, 0)),
 		LocalSRTPProtectionProfiles:  w.clientProfiles,
-		LocalSRTPMasterKeyIdentifier: zzsymBytes("client_mki", zzHsDim("client_mki_len", zzDimSRTP, 2, 1)),
+		LocalSRTPMasterKeyIdentifier: zzsymBytes("client_mki", 1),
 		SupportedProtocols:           w.clientALPN,
 		EllipticCurves:               []elliptic.Curve{elliptic.X25519, elliptic.P256},
 		ConnectionIDGenerator:        zzHsCIDGen("client_cid", w.clientCIDMode),
@@ -466,7 +476,7 @@ func zzHsConfigure() *zzHsWorld {
 		LocalSignatureSchemes:        zzHsEd25519(),
 		ExtendedMasterSecret:         zzHsEMS(zzHsDim("server_ems", zzDimEMS, nems, 0)),
 		LocalSRTPProtectionProfiles:  w.serverProfiles,
-		LocalSRTPMasterKeyIdentifier: zzsymBytes("server_mki", zzHsDim("server_mki_len", zzDimSRTP, 2, 1)),
+		LocalSRTPMasterKeyIdentifier: zzsymBytes("server_mki", 1),
 		SupportedProtocols:           w.serverALPN,
 		EllipticCurves:               []elliptic.Curve{elliptic.P256, elliptic.X25519},
 		ConnectionIDGenerator:        zzHsCIDGen("server_cid", w.serverCIDMode),
@@ -515,6 +525,7 @@ func zzHsHello(w *zzHsWorld) bool {
 	next, a, err := flight0Parse(ctx, s.conn, s.state, s.cache, s.cfg)
 	if a != nil || err != nil {
 		zzsymCover("server_rejects_hello")
+		w.abort = "server_hello"
 		return false
 	}
 	if w.hvr {
@@ -537,6 +548,7 @@ func zzHsHello(w *zzHsWorld) bool {
 	pkts, a, err = flight4Generate(s.conn, s.state, s.cache, s.cfg)
 	if a != nil || err != nil {
 		zzsymCover("server_aborts_flight4")
+		w.abort = "server_flight4"
 		return false
 	}
 	zzHsSend(s, c, pkts)
@@ -549,6 +561,7 @@ func zzHsHello(w *zzHsWorld) bool {
 	}
 	if a != nil || err != nil {
 		zzsymCover("client_rejects_server_flight")
+		w.abort = "client_flight3"
 		return false
 	}
 	zzsymAssert(cnext == Flight5, "hs/client_goes_to_flight5")
@@ -651,15 +664,18 @@ func zzHsAssertNegotiated(w *zzHsWorld, resumed bool) {
 }
 
 // flight4_to_flight3 / suite_agree / alpn_agree / srtp_agree / cid commit through the real handlers. A DTLS 1.2
-// client and server are configured independently: authentication mode (certificate; thorough: PSK, ECDHE-PSK),
-// cipher-suite preference lists (4 menus each), extended-master-secret policy (request / disable; thorough:
-// require), SRTP profile lists (0..HSSRTP-1 arbitrary 16-bit codes, MKI 0..1 byte), ALPN lists (0..HSALPN-1
-// arbitrary one-byte names), connection-id generator (none / empty CID; thorough: 2 arbitrary bytes),
-// client-certificate request on/off, PSK identity hint on/off, hello verification (thorough: on). The real
-// flight1Generate, flight0Parse, [flight2Generate, flight1Parse, flight3Generate, flight2Parse,] flight4Generate
-// and flight3Parse (via flight1Parse when no cookie round trip happened) run over the real message codecs and
-// handshake caches. Proved: whenever the server completes flight 4 and the client accepts it (next flight 5),
-// both State12 values hold the same cipher suite (from both lists), mirrored randoms, the same
+// client and server are configured independently along six dimensions: cipher-suite preference lists (3 menus
+// per side; thorough: 5, one led by a DTLS 1.3-only suite that must be skipped), extended-master-secret policy
+// (request / disable; thorough: require), SRTP profile lists (0..HSSRTP-1 arbitrary 16-bit codes per side, one
+// arbitrary MKI byte; MKI lengths vary in zzSRTPAgree), ALPN lists (0..HSALPN-1 arbitrary one-byte names per
+// side), connection-id generator (none / 2 arbitrary bytes; thorough: empty CID) per side, and authentication
+// (certificate, PSK, ECDHE-PSK; client-certificate request on/off; PSK identity hint on/off; hello
+// verification on/off). Quick varies one dimension at a time, thorough every pair of dimensions, the others
+// stay at a default with every feature configured on both sides (the full product is not enumerated). The real
+// flight0Generate, flight1Generate, flight0Parse, [flight2Generate, flight1Parse, flight3Generate, flight2Parse,]
+// flight4Generate and flight3Parse (via flight1Parse when no cookie round trip happened) run over the real
+// message codecs and handshake caches. Proved: whenever the server completes flight 4 and the client accepts it
+// (next flight 5), both State12 values hold the same cipher suite (from both lists), mirrored randoms, the same
 // extended-master-secret decision (consistent with both policies), the same SRTP profile (from both lists; none
 // only if one side configured none), the same ALPN protocol (from both lists), mirrored connection ids and RRC
 // decision, no session id, the client's peer certificate chain is byte-for-byte the chain the server's
@@ -698,7 +714,7 @@ func zzHsSessionTranscript() []byte {
 }
 
 // master_mirror (+ composition with keyblock_mirror). After the hello exchange of zzHelloAgreement12 (same
-// configuration space; every authentication mode - certificate, PSK, ECDHE-PSK - also in the quick tier) the
+// configuration space) the
 // client runs the real flight5Generate (handleServerKeyExchange happened in flight3Parse; initializeCipherSuite
 // derives the master secret and initialises the cipher suite) and the server runs the real flight4Parse on the
 // delivered Certificate / ClientKeyExchange / CertificateVerify / Finished. Diffie-Hellman is an uninterpreted
@@ -904,4 +920,57 @@ func zzResumeAgreement12() {
 	zzsymAssert(zzsymEqBytes(cc.localMAC, sc.remoteMAC) && zzsymEqBytes(cc.remoteMAC, sc.localMAC), "rs/mac_keys_mirrored")
 	zzsymAssert(len(cc.localKey) > 0, "rs/keys_nonempty")
 	zzsymCover("resumed")
+}
+
+// suite_agree. The cipher-suite dimension of zzHelloAgreement12 on its own, in both tiers with all five
+// preference-list menus per side and per authentication mode (certificate / PSK / ECDHE-PSK suites; single
+// suites, two-suite lists in both orders, disjoint lists, a list led by a DTLS 1.3-only suite, lists mixing
+// PSK and ECDHE-PSK): the server selects in flight0Parse (ciphersuite.ForID, DTLS 1.2 filter,
+// FindMatchingCipherSuite over the client's order), the client re-checks the ServerHello value in flight3Parse
+// (ForID, IDSupportsVersion, FindMatchingCipherSuite against its own list). Proved: whenever both accept, both
+// hold the same suite id (separate instances), it is in both configured lists, it is the first entry of the
+// CLIENT's list that the server also configured (pion/dtls honours client order), and it is a DTLS 1.2 suite;
+// the server aborts with no flight exactly when the lists share no DTLS 1.2 suite.
+//
+//symgo:entry covers=suite_agreed,suite_first_choice,suite_later_choice,suite_no_common,suite_skips_tls13
+func zzSuiteAgree12() {
+	zzHsReset()
+	zzHsFocus, zzHsFocus2 = zzDimSuite, zzDimAuth
+	zzSuiteAgreeCheck(zzHsConfigureFocused(5))
+}
+
+func zzSuiteAgreeCheck(w *zzHsWorld) {
+	cl, sl := w.client.cfg.LocalCipherSuites, w.server.cfg.LocalCipherSuites
+	// oracle: first entry of the client's list that is a DTLS 1.2 suite and is configured by the server
+	var want ciphersuite.ID
+	for _, c := range cl {
+		if want == 0 && c.ID() != ciphersuite.TLS_AES_128_GCM_SHA256 && zzHsHasSuite(sl, c.ID()) {
+			want = c.ID()
+		}
+	}
+	ok := zzHsHello(w)
+	if want == 0 {
+		zzsymAssert(!ok && w.abort == "server_hello", "suite/no_common_suite_no_handshake")
+		zzsymCover("suite_no_common")
+		return
+	}
+	zzsymAssert(w.abort != "server_hello", "suite/common_suite_accepted_by_server")
+	if !ok {
+		return // aborted later for another reason (SRTP / ALPN lists without a common entry)
+	}
+	c, s := w.client.state, w.server.state
+	zzsymAssert(c.CipherSuite.ID() == s.CipherSuite.ID(), "suite/same_cipher_suite")
+	zzsymAssert(c.CipherSuite != s.CipherSuite, "suite/instances_not_shared")
+	zzsymAssert(s.CipherSuite.ID() == want, "suite/first_client_choice_the_server_supports")
+	zzsymAssert(zzHsHasSuite(cl, want) && zzHsHasSuite(sl, want), "suite/in_both_lists")
+	zzsymAssert(ciphersuite.IDSupportsVersion(want, protocol.Version1_2), "suite/is_dtls12_suite")
+	if cl[0].ID() == want {
+		zzsymCover("suite_first_choice")
+	} else {
+		zzsymCover("suite_later_choice")
+		if cl[0].ID() == ciphersuite.TLS_AES_128_GCM_SHA256 {
+			zzsymCover("suite_skips_tls13")
+		}
+	}
+	zzsymCover("suite_agreed")
 }
